@@ -60,6 +60,15 @@ struct State {
 
 thread_local! {
     static ST: RefCell<State> = RefCell::new(State::default());
+    /// probe mode (search for a failing input after a broken tie lemma): questions outside the exact oracle are answered
+    /// with the exact rational value of the f64 libm result and logged, so that the Coq model is given the same answers
+    static PROBE_FLOAT: std::cell::Cell<bool> = std::cell::Cell::new(false);
+}
+pub fn set_probe_float(on: bool) {
+    PROBE_FLOAT.with(|c| c.set(on))
+}
+fn probe_float() -> bool {
+    PROBE_FLOAT.with(|c| c.get())
 }
 
 pub fn half_pi() -> BigRat {
@@ -191,7 +200,16 @@ fn oracle_sincos(x: &BigRat) -> (BigRat, BigRat) {
         if let Some((_, r)) = st.log.sincos.iter().find(|(k, _)| k == x) {
             return r.clone();
         }
-        let (k, j) = decompose(&st.base, x).unwrap_or_else(|| panic!("unmodelled trig argument {}", x));
+        let (k, j) = match decompose(&st.base, x) {
+            Some(kj) => kj,
+            None if probe_float() => {
+                let (sf, cf) = x.to_f64().sin_cos();
+                let r = (BigRat::from_f64(sf), BigRat::from_f64(cf));
+                st.log.sincos.push((x.clone(), r.clone()));
+                return r;
+            }
+            None => panic!("unmodelled trig argument {}", x),
+        };
         let (c, s) = match &st.base {
             Some(b) => cpow(&b.c, &b.s, k),
             None => (BigRat::one(), BigRat::zero()),
@@ -621,6 +639,18 @@ impl Float for Xq {
         let r = self.rat();
         match r.exact_sqrt() {
             Some(s) => Xq::new(s),
+            None if probe_float() && !r.is_neg() => {
+                let a = BigRat::from_f64(r.to_f64().sqrt());
+                ST.with(|st| {
+                    let mut st = st.borrow_mut();
+                    if !st.log.sqrt.iter().any(|(k, _)| *k == r) {
+                        st.log.sqrt.push((r.clone(), a.clone()));
+                    }
+                });
+                // the same question must get the same answer within a case
+                let a = ST.with(|st| st.borrow().log.sqrt.iter().find(|(k, _)| *k == r).map(|(_, v)| v.clone()).unwrap());
+                Xq::new(a)
+            }
             None => panic!("inexact sqrt of {}", r),
         }
     }
